@@ -1406,7 +1406,6 @@ var codecPairsC05 = []codecPair{
 	cp("ext4 directory entry", pE4, "directoryEntry", "toBytes", pE4, "", "directoryEntryFromBytes", 4),
 }
 
-
 // firstOfRecordList: v is a [][]byte built in the function as a literal (possibly appended to): the value stored as
 // its element 0.
 func firstOfRecordList(v ssa.Value, depth int) ssa.Value {
@@ -1457,7 +1456,6 @@ func firstOfRecordList(v ssa.Value, depth int) ssa.Value {
 	}
 	return nil
 }
-
 
 // inlineReader evaluates a call of a scalar-returning local closure / in-module function whose arguments are constants
 // or windows and whose captured variables are windows.
